@@ -14,12 +14,19 @@
    (3) Held is preserved by every allocating/occupying node work item, by every ClusterCIDR work item
        (an entry with associated nodes is never unmapped), and by the release of any OTHER node whose own
        pod CIDRs do not overlap it.
-   Residue (not a theorem; monitored on the implementation's traces): the world-level glue that a node's
+   And as ONE theorem over whole histories (Hist_proofs.v, last theorem below): in every world reachable in
+   one incarnation of the controller in which nodes are created without pod CIDRs and never deleted -- any
+   nodes and ClusterCIDRs (overlapping, nested, identical ranges, any block sizes, dual stack, created and
+   deleted at any time), label edits, any interleaving of deliveries, resyncs, relists, stale fetches and work
+   items, any pattern of failed / timed-out writes, a crash at any point -- no two nodes hold overlapping pod
+   CIDRs.
+   Residue (not a theorem; monitored on the implementation's traces): node deletion and restarts in that
+   history theorem, i.e. the world-level glue that a node's
    reservation is released only through a deletion notification (or deleting sync) of that very node
    name, and that the CIDRs carried by such notifications are the node's own (assumption E7 about pod
    CIDRs pre-set by the environment; known findings K-TOMB, K-REPL are exactly failures of that glue
    in the other direction: a release that never comes). *)
-From NIPAM Require Import Sys Alloc_proofs Sys_proofs Inv_proofs Resv_proofs.
+From NIPAM Require Import Sys Alloc_proofs Sys_proofs Inv_proofs World_proofs Resv_proofs Hist_proofs.
 Open Scope N_scope.
 
 (* single step, any world *)
@@ -75,3 +82,30 @@ Theorem C01_reservations_survive_release_of_other_nodes :
     (forall c canon, In (PGood c canon) (n_cidrs node) -> overlapb c k = false) -> Held m' name k.
 Proof. exact release_cidr_keeps. Qed.
 Print Assumptions C01_reservations_survive_release_of_other_nodes.
+
+(* the property over whole histories of one incarnation without node deletion *)
+Theorem C01_no_two_nodes_overlap_in_any_history_without_node_deletion :
+  forall po lab pre s1 s2 outs ops,
+  Forall user_op pre -> (forall s, s1 = Some s -> wf_cidr s) -> (forall s, s2 = Some s -> wf_cidr s) -> Forall quiet_op ops ->
+  let w := run po lab init_world (pre ++ Construct s1 s2 outs :: ops) in
+  forall a b, In a (w_nodes w) -> In b (w_nodes w) -> an_name a <> an_name b ->
+  forall c d, node_cidr a c -> node_cidr b d -> overlapb c d = false.
+Proof. exact no_overlap_in_quiet_histories. Qed.
+Print Assumptions C01_no_two_nodes_overlap_in_any_history_without_node_deletion.
+
+(* non-vacuity: such a history in which two nodes are served from two overlapping ClusterCIDRs of different
+   block sizes, one write timing out after having been applied *)
+Example C01_history_nonvacuous :
+  let po0 : parse_oracle := fun _ => Some [] in
+  let lab0 : label_oracle := fun k => [cl k] in
+  let pre := [UCreateCC (mkCCObj [99] (FOk (mkCidr V4 167772160 26)) FEmpty 4 (Some [107]) [] false 1 0 0);
+              UCreateCC (mkCCObj [100] (FOk (mkCidr V4 167772160 25)) FEmpty 5 (Some [108]) [] false 1 0 0);
+              UCreateNode [110;49] [] []; UCreateNode [110;50] [] []] in
+  let ops := [StartInformers; ProcCC UOk; ProcCC UOk; ProcNode [PTimeoutApplied; PFail; PFail]; ProcNode [POk]] in
+  Forall user_op pre /\ Forall quiet_op ops /\
+  map (fun a => (an_name a, an_cidrs a)) (w_nodes (run po0 lab0 init_world (pre ++ Construct None None [] :: ops)))
+  = [([110;49], [PGood (mkCidr V4 167772160 28) true]); ([110;50], [PGood (mkCidr V4 167772176 28) true])].
+Proof.
+  cbv zeta. split; [repeat constructor; cbn; try discriminate; unfold good_obj, good_field, good_range, wf_cidr; cbn; repeat split; try lia; try discriminate; intros [? _]; discriminate|].
+  split; [repeat constructor|]. vm_compute. reflexivity.
+Qed.
